@@ -117,3 +117,11 @@ REG.contract(C + ".eval_proportion", self_type=C + "@prop", params={"proportion"
                       "forall(0, proportion.successes.shape[0], lambda r: self.value[r, 0] == proportion.successes[r] and "
                       "self.value[r, 1] == proportion.trials[r])"])
 FUNCTIONS += [C + ".eval_proportion"]
+
+# ---- one level up: Call.eval_new_data for an offset term dispatches to eval_new_data_offset -----------------------------------------
+REG.contract(C + ".eval_new_data#offset", of=C + ".eval_new_data", self_type=C + "@offset", params={"data_mask": "frame"}, returns="arr1",
+             tags=TAGS + ["C06"], requires=["self.kind == 'offset'", "self._intermediate_data.kind == 'constant'"],
+             ensures=["result.shape[0] == nrows_of(data_mask)",
+                      "forall(0, nrows_of(data_mask), lambda r: result[r] == self._intermediate_data.x)"])
+FUNCTIONS += [C + ".eval_new_data#offset"]
+
